@@ -78,7 +78,8 @@ def labelled():
         out.append((['name from . where size %s 1' % op], 'unknown-operator', 'reject'))
     for qy in ('name from . order by 0', 'name from . order by 2', 'name, size from . order by 3', 'name from . order by 99',
                'name from . order by desc', 'name from . order by desc, name', 'name from . order by name, 2',
-               'name, size from . order by 1, 3 desc', 'name from . order by 00'):
+               'name, size from . order by 1, 3 desc', 'name from . order by 00',
+               'name from . order by 18446744073709551616', 'name from . order by 99999999999999999999999', 'name from . order by 4294967297'):
         out.append(([qy], 'order-by-position', 'reject'))
     for qy in ('name from . limit x', 'name from . limit', 'name from . limit -1', 'name from . limit 1.5', 'name from . limit 1 2',
                "name from . limit ''", 'name from . limit 99999999999'):
@@ -99,7 +100,10 @@ def labelled():
     for qy in ('name from . where modified > garbage', "name from . where modified = '2021-13-45'", "name from . where modified = '2021-01-01 25:00'",
                "name from . where modified = '2021-02-30'", "name from . where modified > '2021-01-01 10:61'",
                "name from . where modified < '2021-01-01 10:10:99'", 'name from . where modified = x', "name from . where modified = '+x'",
-               "name from . where modified = '-'", "name from . where modified = '0000-00-00'"):
+               "name from . where modified = '-'", "name from . where modified = '0000-00-00'",
+               "name from . where modified = '٢٠٢٣-١٢-١١'", "name from . where modified = '25:00'", "name from . where modified > '12:99'",
+               "name from . where modified > '2147483648 years ago'", "name from . where modified < '3000000000 years ago'",
+               "name from . where modified = '999999999 weeks'", "name from . where modified = 12345"):
         out.append(([qy], 'bad-date', 'diag'))
     for qy in ('name from . where is_dir = maybe', 'name from . where is_file = 2', "name from . where is_dir != 'x y'",
                'name from . where suid = tru'):
@@ -119,6 +123,11 @@ def labelled():
             for lim in ('', ' limit 1', ' limit 2', ' limit 3', ' limit 100'):
                 out.append((['name, %s from . order by 2%s%s' % (key, tail, lim)], 'nan-sort-key', None))
                 out.append((['name from . order by %s%s, name%s' % (key, tail, lim)], 'nan-sort-key', None))
+    # numbers at the edge of the machine types inside expressions and aggregates
+    for qy in ('sum(size * 0 + 10000000000000000000) from .', 'avg(size * 0 + 10000000000000000000), var_pop(size * 0 + 1e308) from .',
+               '-rand(-9223372036854775808, -9223372036854775807) from . limit 1', 'name, -(0 - 9223372036854775808) from . limit 1',
+               ):
+        out.append(([qy], 'edge-number', None))
     # sort keys that are numbers for some rows and text for others, in every arrival order, with every small LIMIT
     for n in (3, 4):
         for perm in itertools.permutations(sorted(KS), n):
